@@ -317,7 +317,7 @@ def run(tier, seed):
         transitions += res.generated
         side = os.path.join(vlib.sub("scn"), "negotiate.%s.side" % tag)
         out = vlib.replay(ENGINE, scen, side_path=side, timeout=300)
-        if out.total < res.scn:      # (a scenario retried after a watchdog timeout is counted twice by vlib)
+        if out.total < res.scn and not out.truncated:      # (a scenario retried after a watchdog timeout is counted twice by vlib)
             raise vlib.Inconclusive("replayed %d of %d scenario lines of %s" % (out.total, res.scn, cfg))
         u_runs = 0
         with open(side) as f:
